@@ -50,8 +50,8 @@ def repr_string(string: str, indent: int = 0, prefer_single_qoute: bool = False)
         preferred_multiline_quote = '"""'
         secondary_multiline_quote = "'''"
 
-    if "\n" not in string:
-        # Single line string
+    if "\n" not in string and "\r" not in string and "\f" not in string:
+        # Single line string (carriage returns and form feeds can only be written in multi line strings)
         return f"{preferred_quote}{escape_quotes(string, which_quotes=preferred_quote)}{preferred_quote}"
     if not _multiline_string_reads_back(string, indent):
         # The indentation rules of multi line strings would change this string. We fall back to single line string representation.
